@@ -286,4 +286,92 @@ theorem childrenLoop_invisible_cons (st : Style) (ind : Nat) (s : Stmt) (ss : St
   conv => lhs; unfold childrenLoop
   simp [visit_invisible st ind s h]
 
+/-! placeholders never reach the output -/
+
+/-- All opaque texts of a selector. -/
+def simpleTexts : List Simple → List Str
+  | [] => []
+  | .text s :: r => s :: simpleTexts r
+  | .placeholder _ :: r => simpleTexts r
+
+def compTexts : List Component → List Str
+  | [] => []
+  | .comb c :: r => [c] :: compTexts r
+  | .compound ss :: r => simpleTexts ss ++ compTexts r
+
+def selTexts (sel : Selector) : List Str := (sel.map (fun cx => compTexts cx.comps)).flatten
+
+theorem pct_compoundOut (ss : List Simple) (hv : compoundInvisible ss = false)
+    (h : ∀ s ∈ simpleTexts ss, '%' ∉ s) : '%' ∉ compoundOut ss := by
+  have key : '%' ∉ (ss.map Simple.out).flatten := by
+    induction ss with
+    | nil => simp
+    | cons a r ih =>
+      simp only [compoundInvisible, List.any_cons, Bool.or_eq_false_iff] at hv
+      cases a with
+      | text s =>
+        have h1 := h s (by simp [simpleTexts])
+        have h2 := ih (by simpa [compoundInvisible] using hv.2) (fun s hs => h s (by simp [simpleTexts, hs]))
+        simp [Simple.out, h1, h2]
+      | placeholder n => simp [Simple.isInvisible] at hv
+  unfold compoundOut
+  simp only
+  split
+  · simp
+  · exact key
+
+theorem pct_complexOut (st : Style) (last : Option Component) (cs : List Component)
+    (hv : cs.any Component.isInvisible = false) (h : ∀ s ∈ compTexts cs, '%' ∉ s) :
+    '%' ∉ complexOut st last cs := by
+  induction cs generalizing last with
+  | nil => simp [complexOut]
+  | cons c r ih =>
+    simp only [List.any_cons, Bool.or_eq_false_iff] at hv
+    have hsp : '%' ∉ (match last with
+      | some l => if (!omitSpaces st l && !omitSpaces st c) = true then [' '] else []
+      | none => []) := by
+      cases last with
+      | none => simp
+      | some l => split <;> simp
+    have hc : '%' ∉ c.out := by
+      cases c with
+      | comb ch =>
+        simpa [Component.out] using h [ch] (by simp [compTexts])
+      | compound ss =>
+        exact pct_compoundOut ss (by simpa [Component.isInvisible] using hv.1)
+          (fun s hs => h s (by simp [compTexts, hs]))
+    have hr := ih (some c) hv.2 (fun s hs => h s (by cases c <;> simp [compTexts, hs]))
+    simp only [complexOut, List.mem_append, not_or]
+    exact ⟨⟨hsp, hc⟩, hr⟩
+
+theorem pct_selectorLoop (st : Style) (first : Bool) (l : List Complex)
+    (hv : ∀ cx ∈ l, cx.isInvisible = false) (h : ∀ cx ∈ l, ∀ s ∈ compTexts cx.comps, '%' ∉ s) :
+    '%' ∉ selectorLoop st first l := by
+  induction l generalizing first with
+  | nil => simp [selectorLoop]
+  | cons cx r ih =>
+    have h1 : '%' ∉ (if first = true then [] else ',' :: (if cx.lineBreak = true then optNl st else optSp st)) := by
+      split
+      · simp
+      · cases st <;> split <;> simp [optNl, optSp, Style.isCompressed]
+    have h2 := pct_complexOut st none cx.comps (by simpa [Complex.isInvisible] using hv cx (by simp))
+      (h cx (by simp))
+    have h3 := ih false (fun c hc => hv c (by simp [hc])) (fun c hc => h c (by simp [hc]))
+    simp only [selectorLoop, List.mem_append, not_or]
+    exact ⟨⟨h1, h2⟩, h3⟩
+
+/-- No `%` reaches the output of a selector unless one of its opaque texts contains it: placeholder
+    selectors (`%name`) are never printed. -/
+theorem pct_selectorOut (st : Style) (sel : Selector) (h : ∀ s ∈ selTexts sel, '%' ∉ s) :
+    '%' ∉ selectorOut st sel := by
+  unfold selectorOut
+  apply pct_selectorLoop
+  · intro cx hcx
+    simpa using (List.mem_filter.mp hcx).2
+  · intro cx hcx s hs
+    exact h s (by
+      simp only [selTexts, List.mem_flatten, List.mem_map]
+      exact ⟨compTexts cx.comps, ⟨cx, (List.mem_filter.mp hcx).1, rfl⟩, hs⟩)
+
+
 end Grass.Serialize
